@@ -1542,6 +1542,8 @@ impl DB {
             );
             let value = batch_element.get_value().map_or(vec![], |val| val.to_vec());
             memtable.insert(internal_key, value);
+            #[cfg(raindb_verif)]
+            raindb_verif_rt::hook_point();
 
             curr_sequence_num += 1;
         }
